@@ -336,11 +336,7 @@ def _{name}_array(self, other):
 """
 
 def default_range(slice, max):
-    return range(
-        0 if slice.start is None else slice.start,
-        max if slice.stop is None else slice.stop, 
-        1 if slice.step is None else slice.step,
-    )
+    return range(*slice.indices(max))
 
 def unpack_index(index, ndim):
     indim = len(index)
